@@ -1,7 +1,7 @@
 """Property registry: which arms decide which property, tiers, and evidence metadata."""
 from types import SimpleNamespace as NS
 
-from .checks import c19a, c15, c16, c05s, c05h
+from .checks import c19a, c15, c16, c05s, c05h, c03
 
 REAL_COMMON = ['all of elementpath (imported from /repo working tree)', 'CPython re/decimal/json/expat',
                'lxml', 'xmlschema', 'stdlib locale.setlocale/getlocale/normalize (Python level)']
@@ -81,4 +81,24 @@ register(
     EXPECTED_PROBES=[],
     ASSUMPTIONS=['the comparator is a fresh parse on a fresh context in a child forked from the current process',
                  'identity-based values (generate-id) are compared by shape only'],
+)
+
+register(
+    ID='C03', LEVEL='fault_enumeration',
+    ARMS=[(c03, 1.0)],
+    TIERS={'quick': {'runs': 2000, 'wall_cap': 100, 'minimise_budget': 30, 'run_timeout': 180},
+           'thorough': {'runs': 40000, 'wall_cap': 800, 'minimise_budget': 90, 'run_timeout': 180}},
+    RULE='each run = one seeded history (2-30 operations) on 1-3 pooled parser instances: parse of valid / mutated / '
+         'random-Unicode / deep sources, parse interrupted by an asynchronous crash at the k-th line event, '
+         'parse+evaluate (eager or lazy), I/O functions over a virtual filesystem/network with a per-resource fault, '
+         'collation functions with injected setlocale failures, optionally under a reduced recursion limit; after '
+         'every operation 3 probe expressions are parsed by the used instance, a fresh instance and compared with '
+         'pristine-process references; non-trivial = the history contains a failed parse, an armed crash point or an '
+         'I/O operation; distinct = distinct (operation shape, sources)',
+    REAL=REAL_COMMON, STUB=STUB_COMMON,
+    EXPECTED_PROBES=['parse-interrupted-by-crash', 'fault:async-crash', 'fault:io:enoent', 'fault:io:reset-midread',
+                     'fault:setlocale-error'],
+    ASSUMPTIONS=['step budgets count line events in elementpath files only; time inside C code never yields HANG',
+                 'MemoryError and the injected crash exception are never counted as escapes',
+                 'an injected setlocale failure never refuses a locale that was installed successfully before'],
 )
